@@ -307,7 +307,18 @@ pub fn cli_cases(n: usize) -> Vec<Case> {
         Case::Cli { pre: sv(&["--replications", "10", "--steps", "300", "--convergence", "1e-4", "--inner-steps", "30"]), pos: sv(&["p1m1", "polygon", "--sides", "6"]) },
         Case::Cli { pre: sv(&["--replications", "5", "--steps", "1000", "--kt-ratio", "0.3", "--inner-steps", "100"]), pos: sv(&["p2", "trimer", "--radius", "0.8", "--angle", "100"]) },
     ];
-    all.into_iter().cycle().take(n).collect()
+    let mut all = all;
+    // zero-temperature quenches of soft LJ systems in the four-molecule groups: a score that
+    // differs in its last bits sends the trajectory elsewhere
+    for g in ["p2mm", "p2mg", "p2gg", "p2", "p1m1", "p1g1", "p1"].iter() {
+        all.push(Case::Cli { pre: sv(&["--replications", "2", "--steps", "1000", "-p", "LJ"]), pos: sv(&[g, "circle"]) });
+    }
+    // many replicas converging onto near-tied scores: the choice among them must not depend
+    // on how the reduction was split over threads
+    all.push(Case::Cli { pre: sv(&["--replications", "48", "--steps", "150", "--max-step-size", "0.02", "-p", "LJ"]), pos: sv(&["p1", "circle"]) });
+    all.push(Case::Cli { pre: sv(&["--replications", "40", "--steps", "400", "--max-step-size", "0.02", "-p", "LJ"]), pos: sv(&["p2", "circle"]) });
+    all.push(Case::Cli { pre: sv(&["--replications", "32", "--steps", "600", "--max-step-size", "0.05"]), pos: sv(&["p1", "polygon", "--sides", "4"]) });
+    all.into_iter().take(n).collect()
 }
 
 pub fn run(ctx: &Ctx) {
@@ -331,9 +342,17 @@ pub fn run(ctx: &Ctx) {
             check_lib(&c, st);
         }
     });
+    {
+        let mut st = Stats::new();
+        for (i, g) in ["p2mm", "p2mg", "p2gg"].iter().enumerate() {
+            let c = Case::Lib { group: g.to_string(), shape: ShapeSpec::Circle, lj: true, replicas: 4, steps: 700, kt: 0., max_step: 0.05, jitter: 1000 + i as u64 + ctx.seed };
+            check_lib(&c, &mut st);
+        }
+        ctx.merge(st);
+    }
     if let Some(exe) = ctx.args.cli.clone() {
-        let cases = cli_cases(ctx.tier.pick(6, 8));
-        let repeats = ctx.tier.pick(2u64, 8u64);
+        let cases = cli_cases(ctx.tier.pick(18, 18));
+        let repeats = ctx.tier.pick(1u64, 6u64);
         let seed = ctx.seed;
         let results: Vec<(Stats, BTreeSet<String>)> = cases
             .par_iter()
